@@ -755,7 +755,7 @@ ROOT_PATHS = ["/", ""]
 def path_vocab(tier):
     segs = [("key", "a"), ("key", "b")]
     segs += [("idx", i) for i in ((-2, -1, 0, 1, 2) if tier == "quick" else (-3, -2, -1, 0, 1, 2, 3))]
-    segs += [("slice", a, b) for a, b in ((0, 1), (0, 2), (1, 3), (1, 1), (-2, 0), (0, -1), (-2, 9))]
+    segs += [("slice", a, b) for a, b in ((0, 1), (0, 2), (1, 3), (1, 1), (-2, 0), (0, -1), (-2, 9), (-9, 2), (-9, -1))]
     segs += [("search", False, ".", ">", "0"), ("search", False, ".", "=", "1"), ("search", True, ".", "=", "1"),
              ("search", False, ".", "=", "a"), ("search", False, "a", "=", "1")]
     segs += [("all",), ("trav",)]
